@@ -39,7 +39,7 @@ def apply(edit):
 
 
 def run_check(prop):
-    env = dict(os.environ, LM_REPO=SCRATCH)
+    env = dict(os.environ, LM_REPO=SCRATCH, LM_NO_EVIDENCE='1')
     r = subprocess.run([os.path.join(VERIF, 'check'), prop], env=env, capture_output=True, text=True, cwd=VERIF)
     return r.returncode, r.stdout + r.stderr
 
